@@ -56,6 +56,21 @@ func observe(seed int64, nInputs, reps int) []map[string]any {
 			l1, l2, _ := f.WritePDF(&buf)
 			rec("Font.WritePDF", in, sha(buf.Bytes())+fmt.Sprint(l1, l2), r)
 		}
+		// query methods whose answer is a list: glyph names that differ only in case, most of them unencoded
+		{
+			cf := fontgen.Generate(rng, fontgen.Opts{NGlyphs: 2, Encoding: "std-subset", Zone: "utc"})
+			for _, nm := range []string{"Aacute", "aacute", "Agrave", "agrave", "AE", "ae", "Zcaron", "zcaron", "Eth", "eth", "ETH", "Ae"} {
+				cf.Glyphs[nm] = &type1.Glyph{WidthX: 500}
+			}
+			for r := 0; r < reps; r++ {
+				rec("Font.GlyphList", in, sha([]byte(strings.Join(cf.GlyphList(), " "))), r)
+				var buf bytes.Buffer
+				cf.Write(&buf, &type1.WriterOptions{Format: type1.FormatNoEExec})
+				if g, err := type1.Read(bytes.NewReader(buf.Bytes())); err == nil {
+					rec("Read+GlyphList", in, sha([]byte(strings.Join(g.GlyphList(), " "))), r)
+				}
+			}
+		}
 		// metrics with several ligatures per glyph
 		m := &afm.Metrics{Glyphs: map[string]*afm.GlyphInfo{}, FontName: "D", FullName: "D Regular", Encoding: make([]string, 256)}
 		for k := range m.Encoding {
@@ -112,6 +127,11 @@ func observe(seed int64, nInputs, reps int) []map[string]any {
 			inputs = append(inputs, corpus.Input{Name: "font-patching-StandardEncoding-in-place", Entry: "type1", Data: patched})
 		}
 	}
+	// one CMap dictionary without a /CMapName registered under two resource names
+	inputs = append(inputs, corpus.Input{Name: "cmap-one-dict-two-names", Entry: "readcmap", Data: []byte(
+		"/CIDInit /ProcSet findresource begin\n12 dict begin\nbegincmap\n/CMapType 1 def\n1 begincodespacerange <00> <FF> endcodespacerange\n" +
+			"1 begincidchar <20> 7 endcidchar\nendcmap\n/Demo-V currentdict /CMap defineresource pop\n/Demo-H currentdict /CMap defineresource pop\n" +
+			"/Demo-A currentdict /CMap defineresource pop\nend\nend\n")})
 	// two passes over all inputs: every input is read before and after every other one
 	nrep := min(reps, 6)
 	for pass := 0; pass < 2; pass++ {
